@@ -192,7 +192,11 @@ def _get_or_create_semaphore(
                     return GLOBAL_RETRY_SEMAPHORES[fallback_key]
     else:
         with GLOBAL_RETRY_SEMAPHORE_LOCK:
-            if sem_key not in GLOBAL_RETRY_SEMAPHORES:
+            existing = GLOBAL_RETRY_SEMAPHORES.get(sem_key)
+            # An asyncio.Semaphore binds itself to the event loop it is first contended in and raises RuntimeError
+            # when waited on from any other loop: a semaphore left over from an earlier (finished) loop is replaced
+            bound_loop = getattr(existing, '_loop', None)
+            if existing is None or (bound_loop is not None and bound_loop is not asyncio.get_running_loop()):
                 GLOBAL_RETRY_SEMAPHORES[sem_key] = asyncio.Semaphore(semaphore_limit)
             return GLOBAL_RETRY_SEMAPHORES[sem_key]
 
